@@ -65,7 +65,7 @@ func (g *Gen) verifyFunc(fc *FuncContract) (vc *VC) {
 	g.bv = fc.ModeBV
 	g.curTop = fc.Key
 	vc = g.vc
-	fn := g.funcByKey[fc.Key]
+	fn := g.resolveFuncKey(fc.Key)
 	if fn == nil || len(fn.Blocks) == 0 {
 		g.addObligation(&Obligation{Name: fc.Key + ".binding", Func: fc.Key, Kind: "binding", Props: fc.Props, Guard: "true", Goal: "false", Static: true,
 			Status: "undischarged", Output: "function under contract not found in the code (renamed, removed or without body)", Pos: fmt.Sprintf("%s:%d", fc.File, fc.Line)})
@@ -455,4 +455,65 @@ func (g *Gen) computeGlobalStability() {
 			}
 		}
 	}
+}
+
+// resolveFuncKey finds the function a contract key names. `pkg.outer@"literal"` names the closure passed,
+// inside pkg.outer, to a call that also has the string literal as an argument (e.g. mux.HandleFunc("/health", func...)).
+func (g *Gen) resolveFuncKey(key string) *ssa.Function {
+	if fn, ok := g.funcByKey[key]; ok {
+		return fn
+	}
+	i := strings.Index(key, "@\"")
+	if i < 0 || !strings.HasSuffix(key, "\"") {
+		return nil
+	}
+	outer := g.funcByKey[key[:i]]
+	lit := key[i+2 : len(key)-1]
+	if outer == nil {
+		return nil
+	}
+	var found *ssa.Function
+	var visit func(fn *ssa.Function)
+	visit = func(fn *ssa.Function) {
+		for _, b := range fn.Blocks {
+			for _, in := range b.Instrs {
+				ci, ok := in.(ssa.CallInstruction)
+				if !ok {
+					continue
+				}
+				c := ci.Common()
+				hasLit := false
+				var clo *ssa.Function
+				for _, a := range c.Args {
+					if k, ok := a.(*ssa.Const); ok && k.Value != nil && k.Value.Kind() == constant.String && constant.StringVal(k.Value) == lit {
+						hasLit = true
+					}
+					if mc, ok := a.(*ssa.MakeClosure); ok {
+						clo, _ = mc.Fn.(*ssa.Function)
+					}
+					if f, ok := a.(*ssa.Function); ok {
+						clo = f
+					}
+					// http.HandlerFunc(closure) conversions
+					if ct, ok := a.(*ssa.ChangeType); ok {
+						if mc, ok := ct.X.(*ssa.MakeClosure); ok {
+							clo, _ = mc.Fn.(*ssa.Function)
+						}
+					}
+				}
+				if hasLit && clo != nil && found == nil {
+					found = clo
+				}
+			}
+		}
+		for _, af := range fn.AnonFuncs {
+			visit(af)
+		}
+	}
+	visit(outer)
+	if found != nil {
+		g.funcByKey[key] = found
+		g.keyAlias[found] = key
+	}
+	return found
 }
